@@ -69,6 +69,16 @@ static json observe(Matrix& M, Vector& v)
 					tt = false;
 		}
 	}
+	// copies of the vector (copy construction, assignment, by-value passing) are the vector
+	{
+		Vector c1(v), c2;
+		c2 = v;
+		if(c1.Size() != n || c2.Size() != n)
+			tt = false;
+		for(unsigned k = 0; tt && k < n; k++)
+			if(c1[k] != v[k] || c2[k] != v[k])
+				tt = false;
+	}
 	o["tt"] = tt;
 	return o;
 }
@@ -219,7 +229,7 @@ static void probe(Matrix& M, Vector& v, const std::string& p, long i, long j)
 	else if(p == "SubM")
 		sink = M.Sub_Matrix((int)i, (int)j).Rows();
 	else if(p == "VPlusSame" || p == "VPlusOther")
-		sink = (v + Vector(v.Size() + (p == "VPlusOther" ? 1 : 0), 1.0)).Size();
+		sink = (v + Vector(v.Size() + (p == "VPlusOther" ? 1 : 0), 1.0)).Size() + (Vector(v.Size() + (p == "VPlusOther" ? 1 : 0), 1.0) - v).Size();	  // v on either side
 	else if(p == "VMinusEqSame" || p == "VMinusEqOther")
 	{
 		v -= Vector(v.Size() + (p == "VMinusEqOther" ? 1 : 0), 1.0);
